@@ -364,6 +364,13 @@ class HierDictDocument(DictDocument):
                 if subinst is None:
                     subinst = []
 
+                if v is None:
+                    v = ()
+
+                elif not isinstance(v, (list, tuple)):
+                    # a repeated member is spelled as a sequence
+                    raise ValidationError([k, v])
+
                 for a in v:
                     subinst.append(
                             self._from_dict_value(ctx, k, member, a, validator))
